@@ -56,6 +56,7 @@ var sdScenarios = []sdScenario{
 	{Name: "group-rebalance-backoff", Component: "group", Variant: "rebalance", KMax: 80},
 	{Name: "group-coordinator-unreachable", Component: "group", Variant: "unreachable", KMax: 60},
 	{Name: "group-two-members", Component: "group", Variant: "two", KMax: 160},
+	{Name: "group-idle-member", Component: "group", Variant: "idle-member", KMax: 120},
 	{Name: "om-mid-commit", Component: "om", Variant: "slow-commit", KMax: 80},
 	{Name: "om-errors", Component: "om", Variant: "errors", KMax: 80},
 	{Name: "client-refresher", Component: "client", Variant: "refresher", KMax: 60},
@@ -681,8 +682,12 @@ func (h *sdHandler) ConsumeClaim(s sarama.ConsumerGroupSession, c sarama.Consume
 }
 
 func sdGroup(r *sdRun, rng *rand.Rand) {
-	r.sim.CreateTopic("t", 2, 0)
-	for p := 0; p < 2; p++ {
+	nparts := 2
+	if r.sc.Variant == "idle-member" {
+		nparts = 1 // two members, one partition: one member sits in a session without any claim
+	}
+	r.sim.CreateTopic("t", nparts, 0)
+	for p := 0; p < nparts; p++ {
 		r.sim.Append("t", int32(p), genPlainLog(rng, 30, p*100))
 	}
 	var nJoin, nSync int32
@@ -711,7 +716,7 @@ func sdGroup(r *sdRun, rng *rand.Rand) {
 		return sarama.VSimGroupAction{}
 	}
 	members := 1
-	if r.sc.Variant == "two" {
+	if r.sc.Variant == "two" || r.sc.Variant == "idle-member" {
 		members = 2
 	}
 	var groups []sarama.ConsumerGroup
